@@ -2012,12 +2012,17 @@ func (mvcc *MVCCLevelDB) RawCompareAndSwap(cf string, key, expectedValue, newVal
 	}
 
 	oldValue, err = db.Get(key, nil)
+	if err == leveldb.ErrNotFound {
+		// the key does not exist: oldValue is nil
+		oldValue, err = nil, nil
+	}
 	if err != nil {
 		tikverr.Log(err)
 		return nil, false, errors.WithStack(err)
 	}
 
-	if !bytes.Equal(oldValue, expectedValue) {
+	// a nil expectedValue means the key is expected not to exist
+	if (oldValue == nil) != (expectedValue == nil) || !bytes.Equal(oldValue, expectedValue) {
 		return oldValue, false, nil
 	}
 
